@@ -72,6 +72,8 @@ type Flow struct {
 type Graph struct {
 	Nodes []*Node `json:"nodes"`
 	Flows []*Flow `json:"flows"`
+	// DataObjects are declared as <dataObject id=name name=name/>.
+	DataObjects []string `json:"dataObjects,omitempty"`
 }
 
 // Program is a complete generated definitions document with one process.
@@ -272,6 +274,9 @@ func writeGraph(sb *strings.Builder, g *Graph, p *Program, pm *perm) {
 	}
 	for _, f := range g.Flows {
 		parts = append(parts, flowXML(f, p.DefaultLang))
+	}
+	for _, d := range g.DataObjects {
+		parts = append(parts, fmt.Sprintf(`<bpmn:dataObject id="%s" name="%s"/>`+"\n", d, d))
 	}
 	if p.DeclSeed != 0 {
 		shuffle(pm, parts)
